@@ -54,9 +54,9 @@ Fixpoint is_prefix (a b : tpath) : bool :=
   | x :: a', y :: b' => tok_eqb x y && is_prefix a' b'
   | _ :: _, [] => false end.
 
-(* JSON pointer rendering used by the library for paths: "/" ++ token, tokens unescaped *)
+(* JSON pointer rendering used by the library for paths: "/" ++ escaped token *)
 Definition render_tok (show_nat : nat -> string) (t : tok) : string :=
-  match t with TKey k => k | TIdx i => show_nat i end.
+  match t with TKey k => esc_tok k | TIdx i => esc_tok (show_nat i) end.
 Fixpoint render (show_nat : nat -> string) (p : tpath) : string :=
   match p with [] => "" | t :: r => "/" ++ render_tok show_nat t ++ render show_nat r end.
 
